@@ -1061,6 +1061,8 @@ class XsdElement(XsdComponent, ParticleMixin,
                 elem.text = self.fixed
             elif self.default is not None and context.use_defaults:
                 elem.text = self.default
+            elif validation != 'skip' and not xsd_type.text_is_valid('', context):
+                errors.append("a value is required, an empty content is not valid.")
 
         elif isinstance(xsd_type.content, XsdSimpleType):
             if xsd_type.content.max_length == 0:
@@ -1077,6 +1079,8 @@ class XsdElement(XsdComponent, ParticleMixin,
                 elem.text = self.fixed
             elif self.default is not None and context.use_defaults:
                 elem.text = self.default
+            elif validation != 'skip' and not xsd_type.content.text_is_valid('', context):
+                errors.append("a value is required, an empty content is not valid.")
 
         else:
             context.level += 1
